@@ -453,7 +453,6 @@ def main():
                 out += c + [""]
             open(path, "w").write("\n".join(out))
             print("added %d witnesses, %d ops" % (len(chosen), sum(len(c) - 1 for c, g in chosen)))
-            json.dump(sorted(seen | A), open(os.path.join(a.tmp, "..", "treecases-universe.json"), "w"))
             return 0
         det, ex = deterministic(a.pv, trees, witnesses=not regen)
         A = a.featset(det) | a.featset(ex)
